@@ -9,6 +9,7 @@ import (
 	"math/big"
 	"os"
 	"path/filepath"
+	"strings"
 	"sync"
 	"testing"
 	"time"
@@ -18,6 +19,7 @@ import (
 	"github.com/ethereum/go-ethereum/crypto"
 	libp2pcrypto "github.com/libp2p/go-libp2p/core/crypto"
 	"github.com/libp2p/go-libp2p/core/peer"
+	handshakepb "github.com/primevprotocol/mev-commit/gen/go/handshake/v1"
 	"github.com/primevprotocol/mev-commit/pkg/keysigner"
 	mockkeysigner "github.com/primevprotocol/mev-commit/pkg/keysigner/mock"
 	"github.com/primevprotocol/mev-commit/pkg/p2p"
@@ -35,6 +37,15 @@ type c18In struct {
 	// signer (1, key loaded from disk); Signer = 2 adds the repository's keystore signer (slow: scrypt).  Signer also
 	// says which of them feeds libp2p.New in the Full run.
 	Signer int
+	// the configured handshake secret (Options.Secret / the passcode of the handshake service); absent = "test"
+	Secret *string `json:",omitempty"`
+}
+
+func (in c18In) secret() string {
+	if in.Secret == nil {
+		return "test"
+	}
+	return *in.Secret
 }
 
 type c18Signer struct {
@@ -43,7 +54,9 @@ type c18Signer struct {
 	Priv   string // GetPrivateKey().D, decimal
 	Addr   []byte // GetAddress()
 	Tr     []byte // GetEthAddressFromPeerID of the identity built from GetPrivateKey() the way libp2p.New does; nil: none
-	Rec    []byte // pkg/signer Verify on SignHash(Keccak256(role+token)) (what handshake.createSignature signs); nil: failed
+	Rec    []byte // pkg/signer Verify on (Sig, PeerType+Token) of the handshake request the node ACTUALLY SENT; nil: failed / nothing sent
+	RecRaw []byte // pkg/signer Verify on SignHash(Keccak256(role+secret)) (what handshake.createSignature signs); nil: failed
+	SentRole, SentToken string // the request as sent (diagnosis)
 	Hs     []byte // address a real peer's handshake.Service.Handle enrolled this node under; nil: refused
 	Bid    []byte // preconfsigner.VerifyBid(ConstructSignedBid(...)); nil: failed
 	Commit []byte // preconfsigner.VerifyPreConfirmation(ConstructPreConfirmation(bid)); nil: failed
@@ -76,6 +89,7 @@ func c18Key(d *big.Int) *ecdsa.PrivateKey {
 // an in-memory p2p.Stream pair whose reads honour the context (a refused handshake must not hang the other side)
 type c18Stream struct {
 	in, out chan []byte
+	first   chan []byte // copy of the first message written (capacity 1), if not nil
 }
 
 func (s *c18Stream) ReadMsg(ctx context.Context, m proto.Message) error {
@@ -90,6 +104,12 @@ func (s *c18Stream) WriteMsg(ctx context.Context, m proto.Message) error {
 	b, err := proto.Marshal(m)
 	if err != nil {
 		return err
+	}
+	if s.first != nil {
+		select {
+		case s.first <- append([]byte(nil), b...):
+		default:
+		}
 	}
 	select {
 	case s.out <- b:
@@ -111,29 +131,29 @@ var c18PeerKey *ecdsa.PrivateKey
 // c18Handshake runs the node's side (handshake.Service built over ks exactly as libp2p.New builds it: real signer,
 // real GetEthAddressFromPeerID) against a real peer; nodePid is the node's transport identity.  Returns the address
 // the PEER enrolled the node under (its verifyReq: signature recovery + address-binding check), nil if it refused.
-func c18Handshake(ks keysigner.KeySigner, nodePid peer.ID, slow int) ([]byte, string) {
+func c18Handshake(ks keysigner.KeySigner, nodePid peer.ID, secret string, slow int) ([]byte, *handshakepb.HandshakeReq, string) {
 	c18PeerOnce.Do(func() { c18PeerKey = c18Key(big.NewInt(0x5eed5eed)) })
 	pk, err := libp2pcrypto.UnmarshalSecp256k1PrivateKey(util.PadKeyTo32Bytes(c18PeerKey.D))
 	if err != nil {
-		return nil, "peer key: " + err.Error()
+		return nil, nil, "peer key: " + err.Error()
 	}
 	peerPid, err := peer.IDFromPrivateKey(pk)
 	if err != nil {
-		return nil, "peer id: " + err.Error()
+		return nil, nil, "peer id: " + err.Error()
 	}
-	node, err := handshake.New(ks, p2p.PeerTypeBidder, "test", signer.New(), c18Reg{}, GetEthAddressFromPeerID)
+	node, err := handshake.New(ks, p2p.PeerTypeBidder, secret, signer.New(), c18Reg{}, GetEthAddressFromPeerID)
 	if err != nil {
-		return nil, "node handshake service: " + err.Error()
+		return nil, nil, "node handshake service: " + err.Error()
 	}
 	other, err := handshake.New(mockkeysigner.NewMockKeySigner(c18PeerKey, crypto.PubkeyToAddress(c18PeerKey.PublicKey)),
-		p2p.PeerTypeProvider, "test", signer.New(), c18Reg{}, GetEthAddressFromPeerID)
+		p2p.PeerTypeProvider, secret, signer.New(), c18Reg{}, GetEthAddressFromPeerID)
 	if err != nil {
-		return nil, "peer handshake service: " + err.Error()
+		return nil, nil, "peer handshake service: " + err.Error()
 	}
 	ctx, cancel := context.WithTimeout(context.Background(), time.Duration(slow)*20*time.Second)
 	defer cancel()
 	ab, ba := make(chan []byte, 8), make(chan []byte, 8)
-	nodeStream, peerStream := &c18Stream{in: ba, out: ab}, &c18Stream{in: ab, out: ba}
+	nodeStream, peerStream := &c18Stream{in: ba, out: ab, first: make(chan []byte, 1)}, &c18Stream{in: ab, out: ba}
 	type res struct {
 		p   *p2p.Peer
 		err error
@@ -154,17 +174,27 @@ func c18Handshake(ks keysigner.KeySigner, nodePid peer.ID, slow int) ([]byte, st
 		peerRes <- res{p, err}
 	}()
 	pr, nr := <-peerRes, <-nodeRes
+	// the request the node put on the wire
+	var sent *handshakepb.HandshakeReq
+	select {
+	case b := <-nodeStream.first:
+		r := new(handshakepb.HandshakeReq)
+		if proto.Unmarshal(b, r) == nil {
+			sent = r
+		}
+	default:
+	}
 	if pr.err != nil {
-		return nil, "peer refused: " + pr.err.Error()
+		return nil, sent, "peer refused: " + pr.err.Error()
 	}
 	note := ""
 	if nr.err != nil {
 		note = "node side: " + nr.err.Error()
 	}
-	return pr.p.EthAddress.Bytes(), note
+	return pr.p.EthAddress.Bytes(), sent, note
 }
 
-func c18ObserveSigner(kind int, ks keysigner.KeySigner, slow int) (so c18Signer) {
+func c18ObserveSigner(kind int, ks keysigner.KeySigner, secret string, slow int) (so c18Signer) {
 	so.Kind = kind
 	so.Addr = ks.GetAddress().Bytes()
 	so.Priv = "0"
@@ -182,17 +212,24 @@ func c18ObserveSigner(kind int, ks keysigner.KeySigner, slow int) (so c18Signer)
 		}
 		ks.ZeroPrivateKey(pk)
 	}
-	// the handshake request signature: handshake.createSignature signs Keccak256(peerType + passcode) with SignHash;
-	// the peer recovers with pkg/signer Verify
-	data := []byte(p2p.PeerTypeBidder.String() + "test")
+	// the handshake request signature as handshake.createSignature makes it: Keccak256(peerType + passcode), SignHash
+	data := []byte(p2p.PeerTypeBidder.String() + secret)
 	if sig, err := ks.SignHash(crypto.Keccak256Hash(data).Bytes()); err == nil {
 		if ok, a, err := signer.New().Verify(sig, data); err == nil && ok {
-			so.Rec = a.Bytes()
+			so.RecRaw = a.Bytes()
 		}
 	}
-	// ... and the same through the real handshake services
+	// ... and the real thing: the node's handshake service against a real peer; what the peer recovers (pkg/signer
+	// Verify, as its verifyReq does) from the request AS SENT - signature over PeerType+Token of that request
 	if nodePid != "" {
-		so.Hs, so.Note = c18Handshake(ks, nodePid, slow)
+		var sent *handshakepb.HandshakeReq
+		so.Hs, sent, so.Note = c18Handshake(ks, nodePid, secret, slow)
+		if sent != nil {
+			so.SentRole, so.SentToken = sent.PeerType, sent.Token
+			if ok, a, err := signer.New().Verify(sent.Sig, []byte(sent.PeerType+sent.Token)); err == nil && ok {
+				so.Rec = a.Bytes()
+			}
+		}
 	}
 	// bids and commitments
 	ps := preconfsigner.NewSigner(ks)
@@ -270,7 +307,7 @@ func c18Run(in c18In, slow int) (obs c18Obs) {
 			continue
 		}
 		sgn[kind] = ks
-		obs.Signers = append(obs.Signers, c18ObserveSigner(kind, ks, slow))
+		obs.Signers = append(obs.Signers, c18ObserveSigner(kind, ks, in.secret(), slow))
 	}
 	if in.Full {
 		ks := sgn[in.Signer]
@@ -280,7 +317,7 @@ func c18Run(in c18In, slow int) (obs c18Obs) {
 		}
 		svc, err := New(&Options{
 			KeySigner:  ks,
-			Secret:     "test",
+			Secret:     in.secret(),
 			ListenPort: 0,
 			ListenAddr: "127.0.0.1",
 			PeerType:   p2p.PeerTypeBidder,
@@ -317,7 +354,7 @@ func TestVerifC18(t *testing.T) {
 		var sg []string
 		for _, so := range obs.Signers {
 			sg = append(sg, coqRecord("s_kind", coqN(uint64(so.Kind)), "s_priv", coqBigN(big10(so.Priv)), "s_addr", coqBytes(so.Addr),
-				"s_tr", coqOptBytes(so.Tr), "s_rec", coqOptBytes(so.Rec), "s_hs", coqOptBytes(so.Hs), "s_bid", coqOptBytes(so.Bid),
+				"s_tr", coqOptBytes(so.Tr), "s_rec", coqOptBytes(so.Rec), "s_rec_raw", coqOptBytes(so.RecRaw), "s_hs", coqOptBytes(so.Hs), "s_bid", coqOptBytes(so.Bid),
 				"s_commit", coqOptBytes(so.Commit)))
 		}
 		e.Emit(class, in, obs, func(id int) string {
@@ -408,12 +445,30 @@ func TestVerifC18(t *testing.T) {
 		run("byte-boundary", c18In{D: p.String()})
 		run("byte-boundary", c18In{D: new(big.Int).Sub(p, one).String()})
 	}
-	for i := 0; i < e.N; i++ {
+	// the configured handshake secret: what is signed and what is sent must stay the same string, whatever it is
+	secrets := []string{"test", "", " s", "s ", "s\n", "\ts\t", "a b", "\n", "  ", "s\r\n", "пароль-ключ", "秘密 ", strings.Repeat("long secret ", 200), "x\x00y", "\u00a0s\u00a0", "\u2028s"}
+	randD := func() *big.Int {
 		b := make([]byte, 32)
 		e.rng.Read(b)
 		d := new(big.Int).SetBytes(b)
 		d.Mod(d, new(big.Int).Sub(n, one))
 		d.Add(d, one)
-		run("random", c18In{D: d.String()})
+		return d
+	}
+	for i := range secrets {
+		sec := secrets[i]
+		run("secrets", c18In{D: randD().String(), Secret: &sec, Full: i%5 == 1})
+	}
+	{
+		sec := "s\n"
+		run("secrets", c18In{D: randD().String(), Secret: &sec, Signer: 2})
+	}
+	for i := 0; i < e.N; i++ {
+		in := c18In{D: randD().String()}
+		if i%3 != 0 {
+			sec := secrets[e.rng.Intn(len(secrets))]
+			in.Secret = &sec
+		}
+		run("random", in)
 	}
 }
